@@ -165,6 +165,39 @@ func (m *RWMutex) RUnlock() {
 	simrt.AfterRelease()
 }
 
+// TryLock and TryRLock decide on the model, like the blocking variants.
+func (m *RWMutex) TryLock() bool {
+	mode, ok := simrt.LockTry(&m.m)
+	switch mode {
+	case simrt.ModePlain:
+		return m.mu.TryLock()
+	case simrt.ModeTry:
+		ok = m.mu.TryLock()
+		simrt.LockNoteTry(&m.m, ok)
+		return ok
+	case simrt.ModeSkip:
+		return false
+	}
+	m.mu.Lock()
+	return ok
+}
+
+func (m *RWMutex) TryRLock() bool {
+	mode, ok := simrt.RLockTry(&m.m)
+	switch mode {
+	case simrt.ModePlain:
+		return m.mu.TryRLock()
+	case simrt.ModeTry:
+		ok = m.mu.TryRLock()
+		simrt.RLockNoteTry(&m.m, ok)
+		return ok
+	case simrt.ModeSkip:
+		return false
+	}
+	m.mu.RLock()
+	return ok
+}
+
 func (m *RWMutex) RLocker() Locker { return (*rlocker)(m) }
 
 type rlocker RWMutex
